@@ -6,6 +6,7 @@ package vault
 // maximum.
 //
 //vx:pkg github.com/openbao/openbao/v2/internal/vault
+//vx:assume the auth method's policy list and the identity-derived policies range over lists from the 5-name universe up to the bound; lease registration may fail
 //vx:include create.go
 //vx:param loginpol quick=1 thorough=3
 //vx:param parents quick=2 thorough=3
